@@ -25,6 +25,11 @@ FieldValues == <<"", "0", "1", "-1", "x", "32", "33", "10", "11", "512", "513", 
                  "crd", "sts", "stk", "-----">>
 ByteValues == {0, 1, 127, 128, 191, 192, 223, 224, 254, 255}    \* OpenPGP length-octet boundaries and extremes
 
+\* multi-octet length encodings written over the data: five-octet lengths at and next to 2^32 (sums with a header
+\* length wrap around in 32 bits), 2^31, 0 and 1; two-octet lengths at their limits; a partial-length octet with the maximum
+LenPatterns == << <<255, 255, 255, 255, 255>>, <<255, 255, 255, 255, 254>>, <<255, 255, 255, 255, 250>>, <<255, 128, 0, 0, 0>>,
+                  <<255, 127, 255, 255, 255>>, <<255, 0, 0, 0, 0>>, <<255, 0, 0, 0, 1>>, <<192, 0>>, <<223, 255>>, <<254, 255>> >>
+
 Outcomes == {"refused", "exception", "accepted"}                \* what the specification admits
 
 FieldCases(s) ==
@@ -40,7 +45,9 @@ CharCases(s) ==
 ByteCases(s) ==
   LET os == {o \in 0..(s.nc - 1) : s.nc <= 120 \/ o < 24 \/ o % Stride = 0} IN
   {[type |-> s.type, op |-> "SetByte", k |-> o, v |-> b] : o \in os, b \in ByteValues} \cup
-  {[type |-> s.type, op |-> "FlipByte", k |-> o, v |-> 1] : o \in os}
+  {[type |-> s.type, op |-> "FlipByte", k |-> o, v |-> 1] : o \in os} \cup
+  {[type |-> s.type, op |-> "SetBytes", k |-> o, v |-> LenPatterns[j]] : o \in os, j \in 1..Len(LenPatterns)} \cup
+  {[type |-> s.type, op |-> "InsBytes", k |-> o, v |-> LenPatterns[j]] : o \in os, j \in 1..Len(LenPatterns)}
 CasesOf(s) == IF s.binary THEN CharCases(s) \cup ByteCases(s) ELSE FieldCases(s) \cup CharCases(s)
 
 VARIABLES i, done
